@@ -67,7 +67,17 @@ func Dominates(a, b ssa.Instruction) bool {
 // ConstInt returns the integer value of a constant.
 func ConstInt(v ssa.Value) (int64, bool) {
 	c, ok := v.(*ssa.Const)
-	if !ok || c.Value == nil || c.Value.Kind() != constant.Int {
+	if !ok {
+		return 0, false
+	}
+	if c.Value == nil {
+		// zero value of an integer type
+		if b, isB := c.Type().Underlying().(*types.Basic); isB && b.Info()&types.IsInteger != 0 {
+			return 0, true
+		}
+		return 0, false
+	}
+	if c.Value.Kind() != constant.Int {
 		return 0, false
 	}
 	return constant.Int64Val(c.Value)
